@@ -96,6 +96,7 @@ func run(p *rules.Property, repo, tier, verif string, seed int) int {
 				}
 			}()
 			p.Run(c)
+			c.EvalWitnesses()
 		}()
 		return c
 	}
